@@ -375,11 +375,16 @@ pub fn run(rec: &mut Rec) {
 #[cfg(feature = "sim")]
 pub fn run(rec: &mut Rec) {
     let owner = "ark_poly_commit";
-    let run_tape4 = |item: &str, threads: usize, tape: Vec<u8>, seed: u64| -> (BTreeMap<String, String>, Vec<u8>, Vec<bool>, Vec<u64>) {
+    let run_tape5 = |item: &str, threads: usize, tape: Vec<u8>, seed: u64| -> (BTreeMap<String, String>, Vec<u8>, Vec<bool>, Vec<u64>, Vec<u8>) {
         rayon_core::sim::begin(threads, tape, owner);
         let outs = run_item(item, seed);
+        let arity = rayon_core::sim::arities();
         let (trace, owned, sites) = rayon_core::sim::end();
-        (digests_of(&outs), trace, owned, sites)
+        (digests_of(&outs), trace, owned, sites, arity)
+    };
+    let run_tape4 = |item: &str, threads: usize, tape: Vec<u8>, seed: u64| -> (BTreeMap<String, String>, Vec<u8>, Vec<bool>, Vec<u64>) {
+        let (a, b, c, d, _) = run_tape5(item, threads, tape, seed);
+        (a, b, c, d)
     };
     let run_tape = |item: &str, threads: usize, tape: Vec<u8>, seed: u64| -> (BTreeMap<String, String>, Vec<u8>, Vec<bool>) {
         let (a, b, c, _) = run_tape4(item, threads, tape, seed);
@@ -393,7 +398,7 @@ pub fn run(rec: &mut Rec) {
         let mut want: Option<BTreeMap<String, String>> = None;
         for threads in pools.iter().copied() {
             // probe run to learn the joins (every worker does it; it is one flow)
-            let (d0, trace0, owned0, sites0) = run_tape4(item, threads, vec![], rec.seed);
+            let (d0, trace0, owned0, sites0, arity0) = run_tape5(item, threads, vec![], rec.seed);
             let n = trace0.len();
             let id0 = format!("sched/{}/pool={}/default", item, threads);
             if rec.take(&id0) {
@@ -451,7 +456,8 @@ pub fn run(rec: &mut Rec) {
                         continue;
                     }
                 };
-                for v in 1u8..8 {
+                // a join has 8 alternatives (order x two migrated flags); a scope pick as many as jobs are pending
+                for v in 1u8..arity0[i].min(8).max(2) {
                     let mut tape = vec![0u8; i];
                     tape.push(v);
                     let (d, _, _) = run_tape(item, threads, tape, rec.seed);
